@@ -33,6 +33,7 @@ RULE = (
     "MFPCA (inner-product, 2 components, linear sample mean) for inverse_transform; non-trivial when the centred data are not all zero"
 )
 PARTIAL = [
+    "translator (harness/c02_translate.py): UFPCA.transform (what is centred / rescaled), DenseFunctionalData.rescale (power), the NumInt integrand / axes / method forwarding, the InnPro radicand and inverse_transform (einsum subscripts, sqrt(weights) only after a normalised fit, + mean) are re-extracted on every run and proved equal to the model (C03.*_src_eq_model, transform_flags_src); unrecognised shape: reference translation + note, tie by the correspondence only",
     "eigenfunctions, eigenvalues, Gram eigenvectors, mean and weight are taken from the fitted estimator and fed to the model (their own correctness is C01/C02/C09/C10's subject; mean and weight are additionally recomputed by the model)",
     "PACE (dense, 1-D, both settings of normalize, transform(None) and transform(data)): exact rational solve of y Σ = x with certificate; compared at 1e-6 when cond(Σ) ≤ 1e8 and ≤ 9 grid points (pinv of Σ = Mercer + σ²I, σ² ≥ 1e-4); PACE on irregular data (`_transform_pace_irregular`: interpolation first) is not modelled",
     "integration_method='simpson' is scipy's: checked by the oracle against scipy directly, not modelled",
